@@ -1,7 +1,7 @@
 """C05 — crash at any write boundary (the part the code controls: order of effects)."""
 import re
 
-from ..core import CheckError, op_const
+from ..core import CheckError, Site, op_const
 from ..effects import Effects
 from ..prov import reads_locals, sources
 from .c01 import APPEND, STORE, ok_edge_of_try
@@ -143,6 +143,39 @@ def run(ctx):
             ctx.ob('C05.10', f, 'tmp-recreatable', not hit, 'the rename source `%s` is %s' % (f.lname(rp) if rp is not None else '?', 'not created exclusively' if not hit else
                    'created with create_new (line %s): after a crash between create and rename the leftover makes this and every later attempt fail with AlreadyExists' % hit[0].line), line=r.line)
     ctx.floor('C05.10', 'renames in ripd', nren, 10)
+    # ... and what is renamed into place is complete: a BufWriter over the temporary is flushed (or consumed / dropped)
+    # on every path from its creation to the rename of that temporary
+    ctx.rule('C05.11', 'complete before published: where a temporary file is written through a BufWriter and then renamed into place, every path from the creation of that writer to the rename passes its flush (or into_inner / its drop). A rename that overtakes the buffered tail publishes a short (or empty) file under the final name; it stays that way if the process dies before the writer is dropped.')
+    TR = (r'::as_ref$', r'::deref$', r'::as_path$', r'::deref_mut$', r'::by_ref$', r'::as_mut$', r'::borrow_mut$')
+    nbw = 0
+    for f in [g for g in P.fns.values() if g.crate == 'ripd']:
+        rn = f.calls(RENAME)
+        bws = f.calls(r'BufWriter::<W>::(new|with_capacity)$')
+        if not rn or not bws:
+            continue
+        for b in bws:
+            wl = b.dest['l']
+            # the path the writer's file was created at
+            fl_ = f.root_local(b.args[-1], through_calls=TR)
+            src_path = None
+            if fl_ is not None:
+                for (dbi, si, kind, payload, _ln) in f.defs(fl_):
+                    if kind == 'call':
+                        cs_ = Site(f, dbi, payload)
+                        if re.search(r'File::create$|OpenOptions::open$|File::create_new$', cs_.callee or '') and cs_.args:
+                            src_path = f.root_local(cs_.args[-1], through_calls=TR)
+            mine = [r for r in rn if f.can_reach(b.bb, r.bb) and (src_path is None or f.root_local(r.args[0], through_calls=TR) in (src_path, None))]
+            if not mine:
+                continue
+            nbw += 1
+            ctx.touch(f)
+            done = [c_.bb for c_ in f.calls(r'Write>::flush$|BufWriter::<W>::into_inner$|^core::mem::drop$') if c_.args and f.root_local(c_.args[0], through_calls=TR) == wl]
+            done += [bi for bi, blk in enumerate(f.blocks) if blk['t']['k'] == 'drop' and (blk['t'].get('pl') or {}).get('l') == wl and not blk['cl']]
+            ok11 = bool(done) and all(f.must_pass(done, b.bb, [r.bb]) for r in mine)
+            ctx.ob('C05.11', f, 'flushed-before-rename:' + (f.lname(wl) or 'writer'), ok11,
+                   'the buffered writer `%s` is flushed / consumed on every path to the rename of its file' % (f.lname(wl) or '?') if ok11 else
+                   'a path from the creation of the buffered writer `%s` reaches the rename (line %s) WITHOUT flush: the file is published before its buffered tail is written — a crash right after the rename leaves a short or empty file under the final name' % (f.lname(wl) or '?', mine[0].line), line=mine[0].line)
+    ctx.floor('C05.11', 'buffered writers over renamed temporaries in ripd', nbw, 6)
 
     # ---------------------------------------------------------------- C05.4
     from .common import log_writer_calls
